@@ -326,3 +326,8 @@ func SortedInts(xs []int) []int {
 	sort.Ints(r)
 	return r
 }
+
+// OneStringRow: a result set of one row with one String column.
+func OneStringRow(col, val string) driver.Rows {
+	return &fakeRows{cols: []string{col}, data: [][]any{{val}}}
+}
